@@ -548,7 +548,7 @@ fn run(r: &Run) {
     sim_equals_5000(r);
     geometry(r);
     board_major(r);
-    r.prop("maps_call_histories", r.tier.pick(20_000, 400_000), lookups, check_history);
+    r.prop("maps_call_histories", r.tier.pick(20_000, 4_000_000), lookups, check_history);
 }
 
 fn replay(r: &Run, check: &str, case: &Value) -> Option<Outcome> {
